@@ -8,7 +8,7 @@
     theorems hold for every value).  [rc unr l] = number of reachable peers of [l]. *)
 From Coq Require Import List NArith ZArith Arith Bool Permutation.
 Import ListNotations.
-Require Import Aurora.Consts Aurora.C21.Model Aurora.C21.Abs Aurora.C22.Model Aurora.C22.Proofs.
+Require Import Aurora.Consts Aurora.C21.Model Aurora.C21.Abs Aurora.C22.Model Aurora.C22.Proofs Aurora.C22.Conc.
 
 (** "never exceeds the radius" *)
 Theorem C22_le_radius : forall (A : Type) (unr : A -> bool) nn quick bins radius,
@@ -65,6 +65,31 @@ Theorem C22_stored_depth_is_recalc : forall pof nn quick maxBins maxpo es, maxBi
   (forall i, i < depth k -> quick <= reachable_in (reach k) (nth i (conn k) [])).
 Proof. exact kad_clauses. Qed.
 Print Assumptions C22_stored_depth_is_recalc.
+
+(** the same over ALL INTERLEAVINGS of concurrent depth writers (Conc.v: each
+    call = set/reachability change, then [depthMu.Lock], then recompute + store
+    + unlock; a recomputation overlapped by another thread's set change stores
+    an arbitrary value): for every set of thread programs and every schedule,
+    whenever every started call has returned, the stored depth is the depth of
+    the current peer set, radius and reachability *)
+Theorem C22_stored_depth_all_schedules : forall pof nn quick k0 progs sched,
+  kad_ok nn quick k0 ->
+  let g := grun pof nn quick false (ginit k0 progs) sched in
+  quiescent g -> depth (gk g) = depth_of nn quick (conn (gk g)) (radius (gk g)) (reach (gk g)).
+Proof. exact all_schedules. Qed.
+Print Assumptions C22_stored_depth_all_schedules.
+
+(** the variant in which [Reachable] computes the depth BEFORE taking
+    [depthMu] and only stores it under the lock (seeded/C22-3) is refuted: a
+    schedule exists after which everything has returned and the stored depth
+    is not the depth of the current set *)
+Theorem C22_depth_outside_lock_refuted :
+  exists pof nn quick k0 progs sched,
+    kad_ok nn quick k0 /\
+    let g := grun pof nn quick true (ginit k0 progs) sched in
+    quiescent g /\ depth (gk g) <> depth_of nn quick (conn (gk g)) (radius (gk g)) (reach (gk g)).
+Proof. exact outside_lock_refuted. Qed.
+Print Assumptions C22_depth_outside_lock_refuted.
 
 (** configurations: the thresholds [New] derives from [Options.BinMaxPeers]
     (over = BinMaxPeers, at least 5, rounded up to a multiple of 5;
